@@ -316,6 +316,13 @@ def origin_of_local(fn, l, depth=12, _seen=None):
         return Origin("var", {"local": l, "name": name, "ndefs": len(defs)})
     seen2 = set(_seen)
     seen2.add(l)
+    if name is not None and defs[0][1] == "assign" and defs[0][2].rv is not None and defs[0][2].rv.k == "use" and defs[0][2].rv.ops and defs[0][2].rv.ops[0].place is not None \
+            and defs[0][2].rv.ops[0].place.is_local():
+        y = defs[0][2].rv.ops[0].place.local
+        if y != l and y > fn.arg_count and fn.locals[y].get("name") is not None and fn.locals[y].get("mut") and len([d for d in local_defs(fn).get(y, []) if d[1] != "partial"]) > 1:
+            # `let snapshot = flag;` of a variable that is assigned again later: the binding keeps the value the variable had
+            # then, it is not another name for the variable
+            return Origin("var", {"local": l, "name": name, "snapshot_of": y})
     return _origin_of_def(fn, defs[0], depth - 1, seen2)
 
 
@@ -1169,6 +1176,10 @@ def event_graph(fn, role_of, ret_local=0, max_states=40000, branch_role=None, st
                         if kl == t.args[0].place.local and isinstance(kv, tuple) and kv[0] == "abs" and kv[1].startswith("agg:Result::Err("):
                             desc_ = kv[1]
                 kb = kb | {(t.dest.local, ("variant", rv_[1])), (t.dest.local, ("abs", desc_))}
+        # a bool returned by a call that is not an event of its own (`opt.is_some()`): a later test of (a copy of) it on this
+        # path is a test of that call's result
+        if t.k == "call" and bb not in ev_blocks and t.dest is not None and t.dest.is_local() and fn.local_ty(t.dest.local) == "bool" and t.dest.local not in mut_borrowed(fn) and t.dest.local != ret_local:
+            kb = kb | {(t.dest.local, ("defat", bb, -1))}
         if bb in ev_blocks:
             node = ("ev", _nk(bb, decided), ev_blocks[bb])
             g.add(src, label, node)
@@ -1197,7 +1208,7 @@ def event_graph(fn, role_of, ret_local=0, max_states=40000, branch_role=None, st
                         for kv in kv_:
                             if isinstance(kv, tuple):
                                 try:
-                                    if branch_role(fn, bb, _origin_of_def(fn, (kv[1], "assign", fn.blocks[kv[1]].stmts[kv[2]]), 10, set())) is None:
+                                    if branch_role(fn, bb, _defat_origin(fn, kv)) is None:
                                         static_role = True          # the test it stands for has no role: the flag keeps its own
                                 except Exception:
                                     static_role = True
@@ -1239,9 +1250,8 @@ def event_graph(fn, role_of, ret_local=0, max_states=40000, branch_role=None, st
                     if kl == t.discr.place.local and isinstance(kv, tuple) and kv[0] == "defat":
                         dyn = kv
                 if dyn is not None:
-                    st_ = fn.blocks[dyn[1]].stmts[dyn[2]]
                     try:
-                        pred_ = _origin_of_def(fn, (dyn[1], "assign", st_), 10, set())
+                        pred_ = _defat_origin(fn, dyn)
                         r_ = branch_role(fn, bb, pred_)
                     except Exception:
                         r_ = None
@@ -1313,6 +1323,13 @@ def event_graph(fn, role_of, ret_local=0, max_states=40000, branch_role=None, st
             work.append((s2, (src, frozenset(aliases), label, retv, decided, kb)))
     g.n_states = n
     return g
+
+
+def _defat_origin(fn, kv):
+    """the value a ("defat", block, statement index | -1 for the call terminator) fact stands for"""
+    if kv[2] == -1:
+        return _origin_of_def(fn, (kv[1], "call", fn.blocks[kv[1]].term), 10, set())
+    return _origin_of_def(fn, (kv[1], "assign", fn.blocks[kv[1]].stmts[kv[2]]), 10, set())
 
 
 def _variant_count(fn, bb):
